@@ -68,6 +68,7 @@ struct QueTarget
         if (!x.q) return true;
         if (!SA.err_cls.empty()) return c.fail(SA.err_cls.c_str(), site, "%s", SA.err_detail.c_str());
         if (uint64_t bad = SA.check_guards()) return c.fail("guard-damaged", site, "bytes next to block #%llu were overwritten", (unsigned long long)bad);
+        if (g_cmp_forbidden_hit) { g_cmp_forbidden_hit = false; return c.fail("comparator-called-on-sentinel", site, "the comparator was handed an address inside the queue object itself (the ring sentinel is not an element)"); }
         if (a_que_siz(x.q) != x.z) return c.fail("element-size-mismatch", site, "element size %zu, expected %zu", a_que_siz(x.q), x.z);
         std::vector<void *> got;
         if (!ring(x, site, got, x.M.size() + 2)) return false;
@@ -241,6 +242,7 @@ struct QueTarget
         size_t const len = x.M.size();
         bool const roomy = len < maxlen;
         g_cb_z = x.z;
+        g_cmp_forbid_lo = (uintptr_t)q; g_cmp_forbid_len = q ? sizeof(a_que) : 0; g_cmp_forbidden_hit = false;
         typedef unsigned char UC;
         mac = (((uint64_t)o.a[0] * 3 + (uint64_t)o.a[1] * 5 + (uint64_t)o.a[2] * 7 + (uint64_t)o.a[3]) >> 3 & 3) == 0;
         if (mac) c.st.add("probe.typed_macro_form");
